@@ -71,13 +71,20 @@ def near (a b : α) : Bool := le (abs (sub a b)) eqThr
 def ofBool (b : Bool) : α := if b then one else zero
 end Scalar
 
-/-- Go's `math.Max`: NaN if either is NaN (irrelevant on the finite domain), otherwise the larger. -/
+/-- Go's `math.Max`: `+Inf` if either is `+Inf` (even next to a NaN), else NaN if either is NaN, otherwise the larger;
+    `Max(+0,-0) = +0`. -/
 def floatMax (a b : Float) : Float :=
+  let inf : Float := 1.0 / 0.0
+  if a == inf || b == inf then inf else
   if a.isNaN || b.isNaN then (0.0 / 0.0) else if a > b then a else if b > a then b else
     -- equal (incl. ±0): Go returns +0 for Max(+0,-0)
     if a == 0.0 then (if a.toBits == 0 then a else b) else a
 
+/-- Go's `math.Min`: `-Inf` if either is `-Inf` (even next to a NaN), else NaN if either is NaN, otherwise the smaller;
+    `Min(+0,-0) = -0`. -/
 def floatMin (a b : Float) : Float :=
+  let ninf : Float := -1.0 / 0.0
+  if a == ninf || b == ninf then ninf else
   if a.isNaN || b.isNaN then (0.0 / 0.0) else if a < b then a else if b < a then b else
     if a == 0.0 then (if a.toBits == 0 then b else a) else a
 
